@@ -476,36 +476,34 @@ def read_union(
     return_record_name = options.get("return_record_name")
     return_named_type_override = options.get("return_named_type_override")
     return_named_type = options.get("return_named_type")
-    if return_named_type_override and is_single_name_union(writer_schema):
+
+    # The branch that was read and the matching reader branch can each be an
+    # inline definition or a by-name reference: look at the definitions
+    idx_definition = idx_schema
+    if extract_record_type(idx_schema) not in AVRO_TYPES:
+        idx_definition = named_schemas["writer"][idx_schema]
+    idx_type = extract_record_type(idx_definition)
+    name_definition = idx_definition
+    if idx_reader_schema is not None:
+        name_definition = idx_reader_schema
+        if not isinstance(idx_reader_schema, dict):
+            name_definition = named_schemas["reader"].get(
+                idx_reader_schema, idx_definition
+            )
+
+    writer_names = named_schemas["writer"]
+    if return_named_type_override and is_single_name_union(
+        writer_schema, writer_names
+    ):
         return result
-    elif return_named_type and extract_record_type(idx_schema) in NAMED_TYPES:
-        schema_name = (
-            idx_reader_schema["name"] if idx_reader_schema else idx_schema["name"]
-        )
-        return (schema_name, result)
-    elif return_named_type and extract_record_type(idx_schema) not in AVRO_TYPES:
-        # idx_schema is a named type
-        schema_name = (
-            named_schemas["reader"][idx_reader_schema]["name"]
-            if idx_reader_schema
-            else named_schemas["writer"][idx_schema]["name"]
-        )
-        return (schema_name, result)
-    elif return_record_name_override and is_single_record_union(writer_schema):
+    elif return_named_type and idx_type in NAMED_TYPES:
+        return (name_definition["name"], result)
+    elif return_record_name_override and is_single_record_union(
+        writer_schema, writer_names
+    ):
         return result
-    elif return_record_name and extract_record_type(idx_schema) == "record":
-        schema_name = (
-            idx_reader_schema["name"] if idx_reader_schema else idx_schema["name"]
-        )
-        return (schema_name, result)
-    elif return_record_name and extract_record_type(idx_schema) not in AVRO_TYPES:
-        # idx_schema is a named type
-        schema_name = (
-            named_schemas["reader"][idx_reader_schema]["name"]
-            if idx_reader_schema
-            else named_schemas["writer"][idx_schema]["name"]
-        )
-        return (schema_name, result)
+    elif return_record_name and idx_type == "record":
+        return (name_definition["name"], result)
     else:
         return result
 
